@@ -49,9 +49,16 @@ def a_count_parser(ctx):
             sl, cn = lets[0]["pat"]["pats"]
             if sl["k"] == "Slice":
                 order = [x.get("name") for x in sl["before"]]
+            elif sl["k"] == "Binding":
+                # `let (floats, num) = ..; .. let [a, b, c] = floats;` (the array handed on to a helper and destructured there)
+                for s2 in hir.walk(it2["body"]):
+                    if s2.get("k") == "Let" and s2["pat"]["k"] == "Slice" and s2.get("init") is not None \
+                            and field_path(hir.through_lets(s2["init"], hir.let_env(it2["body"]))) == (sl["name"],):
+                        order = [x.get("name") for x in s2["pat"]["before"]]
             if cn["k"] == "Binding":
                 count_name = cn["name"]
-        ms = [n for n in hir.walk(it2["body"]) if n.get("k") == "Match" and count_name and field_path(n["scrut"]) == (count_name,)]
+        env_ = hir.let_env(it2["body"])          # an extracted helper `x_from_floats([a, b, c], num)` is inlined: its parameters are lets
+        ms = [n for n in hir.walk(it2["body"]) if n.get("k") == "Match" and count_name and field_path(hir.through_lets(n["scrut"], env_)) == (count_name,)]
         if len(ms) != 1:
             ctx.unrecognised("A-COUNT", fname, "no `match <count>` on the count returned by parse_separated_floats found")
             continue
@@ -59,7 +66,7 @@ def a_count_parser(ctx):
         for v, arm, pat in hir.arms_by_variant(ms[0]):
             b = strip(arm["body"])
             nm = callee_name(b) if b["k"] in ("Call", "MethodCall") else None
-            args = [field_path(a) for a in (b.get("args") or [])]
+            args = [field_path(hir.through_lets(a, env_)) for a in (b.get("args") or [])]
             seen[v] = (nm, args)
         for k, want in enumerate(names):
             key = k if k in seen else "_"
